@@ -265,6 +265,20 @@ func runPrune(t *testing.T, run *emit.Run, n int) {
 			submitted[v] = true
 			evItems = append(evItems, emit.Pair(emit.ZI(int64(v)), emit.ZI(int64(p.tag)), emit.ZI(int64(p.id)), emit.Bool(p.bad)))
 		}
+		// force the boundaries: the recorded total is whatever the snapshot says (never re-derived)
+		if votes.Sign() > 0 {
+			d := big.NewInt(int64(r.Intn(3) - 1))
+			switch r.Intn(8) {
+			case 0, 1:
+				tot = new(big.Int).Add(new(big.Int).Mul(votes, big.NewInt(10)), d)
+			case 2:
+				tot = new(big.Int).Add(new(big.Int).Quo(new(big.Int).Mul(votes, big.NewInt(3)), big.NewInt(2)), d)
+			}
+			if tot.Sign() < 0 {
+				tot = big.NewInt(0)
+			}
+			sn.TotalShares = sdkmath.NewIntFromBigInt(tot)
+		}
 		// a second submission by the same validator replaces the first (Queue.AddEvidence); keep the list as stored
 		m, err := k.GetMessagesFromQueue(ctx, qname, 0)
 		if err != nil || len(m) != 1 {
